@@ -878,3 +878,30 @@ def burst_race_probe(pid, wd, rng, n):
                 break
     return viol, {"histories": len(cases), "race_build": True,
                   "bursts": sum(1 for c in cases for op in c["ops"] if op["op"] == "serve_burst")}
+
+
+def gen_bulk_case(rng, cid):
+    """an owner with far more entries than fit in any one packet (130-260 keys, some deleted, optionally compacted and so
+    re-versioned all at once); an observer catches up through the join stream or through many datagram exchanges"""
+    nodes = [{"id": H(IDS[i]), "addr": H("10.0.0.%d:7000" % (i + 1))} for i in range(2)]
+    nk = rng.randint(130, 260)
+    ops = [{"op": "upsert", "n": 1, "k": H("key-%03d" % j), "v": H("%d" % rng.randrange(100))} for j in range(nk)]
+    mode = rng.choice(["join-late", "exchange", "compact-after-sync"])
+    X = lambda a, b: [{"op": "send", "a": a, "b": b, "max": 1400}] + [{"op": "deliver", "i": 0, "max": 1400} for _ in range(4)]
+    if mode == "compact-after-sync":
+        ops.append({"op": "join", "a": 0, "b": 1})
+        for j in rng.sample(range(nk), 6):
+            ops.append({"op": "delete", "n": 1, "k": H("key-%03d" % j)})
+        ops.append({"op": "compact", "n": 1, "th": 1})
+    elif mode == "join-late":
+        for j in rng.sample(range(nk), 6):
+            ops.append({"op": "delete", "n": 1, "k": H("key-%03d" % j)})
+        if rng.random() < 0.5:
+            ops.append({"op": "compact", "n": 1, "th": 1})
+        ops.append({"op": "join", "a": 0, "b": 1})
+    else:
+        ops += [{"op": "upsert", "n": 0, "k": H("k"), "v": H("v")}]
+        # b learns of a by a's request; a then pulls b's state packet by packet
+    for _ in range(rng.randint(8, 14)):
+        ops += X(0, 1)
+    return {"id": cid, "nodes": nodes, "ops": ops}
